@@ -30,6 +30,18 @@ CHECKS = {
         "For every selection, rpc in 1..L+1 and L in 1..4 (quick) / 1..6 (thorough) the recorded open/seek/read events of the load are checked: <= 1 open, <= 1 read per overlapping line group, every read inside its group and the file, none outside the span, nothing for empty selections; the metadata pass of every open is checked to be the descriptor followed by <= ceil(L/rpc) contiguous reads.",
         "events are observed at the fsspec file-object level on the harness' mcfs:// filesystem; selections whose lazy shape xarray mis-composes (C02 D13c) are skipped and counted",
     ),
+    "C04": (
+        "exploration",
+        "deviation-bounded exhaustive enumeration over the leader's fields (baseline, every single field x text-format alphabet, all-fields-at-once per alphabet index, structural variants) with a leaf-by-leaf reference tree model built from frozen layout tables",
+        "Every value field of the exposed leader records receives every entry of its finite alphabet (E/F notation, signs, justification, extremes, every enum code); each product is opened with open_alos2 and all /metadata leaves (value, unit, name, dims, group path) are compared with a reference model that reads only the bytes written. Within one deviation from the baseline plus the all-at-once products.",
+        "the frozen layout tables + leaf rules are the trusted statement of the documented format (reviewed, cross-validated against the pinned tree on 467 leaves); numbers compare numerically (-0.0 == 0.0), scaled values within 4 ulp",
+    ),
+    "C18": (
+        "fault_enumeration",
+        "exhaustive enumeration of truncation lengths and missing files, executed on the real open_alos2 / open_image over a fault-injecting fsspec filesystem",
+        "Every byte length 0..size of an image file x 5 rpc x 2 types through sar_image.open_image; through open_alos2 at every length (thorough) or at every record/field boundary +-1 and every 16th byte (quick); leader and volume directory cuts; every single missing file x use_cache x 3 filesystems. Each outcome must be 'raises' (OSError family for missing files) or 'returns and every declared line loads and equals the truth'; failing opens may not issue more filesystem events than the intact open.",
+        "a cut file is modelled as a shorter file; wall-clock promptness is replaced by a deterministic event-count bound",
+    ),
 }
 
 PENDING = {}
